@@ -18,7 +18,7 @@ def nontrivial(req):
     return True
 
 
-def run(seed, tier, replay=None):
+def run_p(seed, tier, replay=None):
     n = 2500 if tier == "quick" else 60000
     streams = [("p_filter", [seed, n])]
     if replay:
@@ -50,5 +50,9 @@ def run(seed, tier, replay=None):
         "samples": samples, "traces": len(items), "dist": r.dist,
         "violations": violations, "broken": r.broken, "impl_failures": r.impl_failures,
     }
+
+def run(seed, tier, replay=None):
+    from props import mix, cliargs
+    return mix.merge(run_p(seed, tier, replay), cliargs.check(seed, tier, 40, 600))
 
 KNOWN_MATCHERS = {}
